@@ -29,6 +29,11 @@ def run(ck, ctx):
     ck.extra["exhaustive_subrule"] = "table: all 98 abstract inputs of BuildStates::set enumerated"
     R01.success_only(ck, ctx)
     RL.termination_ctors(ck, ctx, "ctor")
+    # a command that could not even be spawned is a failure of *that* step: posix_spawn's result goes through the checker for its
+    # error convention (non-zero), so that waitpid is never called with pid 0 (which would reap a sibling's child and swap verdicts)
+    from . import C16 as R16
+    R16.recipe(ck, ctx)
+    R16.read_then_wait(ck, ctx)
     RL.budget(ck, ctx, "budget")
     RL.final_value(ck, ctx, "final")
     RL.run_false_stops(ck, ctx, "exit")
